@@ -1,6 +1,7 @@
 CFG = dict(
     lean_modules=["SaramaVerif.Model.Group", "SaramaVerif.Props.C07", "SaramaVerif.Model.GroupWorld", "SaramaVerif.Props.C07world", "SaramaVerif.Bridge.C07"],
     lean_support=["SaramaVerif.Gen.C07", "SaramaVerif.Driver.GroupTrace"],
+    confirm_scenario_diffs=True,
     model="C07",
     overlay=["sim", "c07"],
     required_theorems=["Props.C07.step_inv", "Props.C07.session_order", "Props.C07.setup_needs_sync", "Props.C07.claim_at_most_once",
